@@ -245,7 +245,7 @@ class OpResult:
         self.cancel_yielded = False
 
 
-def run_op(a, op, hook=None, via_queue=False):
+def run_op(a, op, hook=None, via_queue=False, wire=False):
     """Serve one operation on association `a`. Returns OpResult; a.sent keeps growing across operations.
 
     via_queue: deliver the request as the peer's P-DATA (dimse.receive_primitive -> msg_queue), call
@@ -311,7 +311,7 @@ def run_op(a, op, hook=None, via_queue=False):
         return []
 
     a.bind(EVT, handler)
-    SA.PeerScript(a, responder)
+    SA.PeerScript(a, responder, wire=wire)
     if svc == "move":
         dest = op.get("dest", "ok")
         res.stub = StoreAssocStub(dest != "unest", outcome_of_current)
